@@ -739,14 +739,25 @@ func (c *Checker) MadeSize(r *report.Report, name string, maker, writer *ssa.Fun
 		return
 	}
 	w := writerParam(writer)
-	if w == "" || len(maker.Params) != 1 {
+	if w == "" || len(maker.Params) < 1 {
 		r.Unknown("A2", name, c.P.Pos(writer.Pos()), "unexpected signatures")
 		return
 	}
 	st := c.IP.Harness(writer)
-	n := st.Symbolic(maker.Params[0].Type(), "$"+maker.Params[0].Name())
-	if n.K != pathint.KInt {
-		r.Unknown("A2", name, c.P.Pos(maker.Pos()), "maker parameter is not an integer")
+	// the size parameter is the maker's integer parameter; any other parameter (a receiver holding state) is arbitrary
+	var n pathint.Val
+	var margs []pathint.Val
+	nInt := 0
+	for _, mp := range maker.Params {
+		v := st.Symbolic(mp.Type(), "$"+mp.Name())
+		if v.K == pathint.KInt {
+			n = v
+			nInt++
+		}
+		margs = append(margs, v)
+	}
+	if nInt != 1 {
+		r.Unknown("A2", name, c.P.Pos(maker.Pos()), "the maker does not have exactly one integer parameter")
 		return
 	}
 	st.Facts = append(st.Facts, lin.Fact{F: n.F.AddC(-minN)})
@@ -759,7 +770,7 @@ func (c *Checker) MadeSize(r *report.Report, name string, maker, writer *ssa.Fun
 	in := st.Bits(wv.O)
 	bad := map[string]string{}
 	pairs, okN := 0, 0
-	for _, ma := range st.Apply(maker, []pathint.Val{n}, "<make>") {
+	for _, ma := range st.Apply(maker, margs, "<make>") {
 		if len(ma.Results) == 0 {
 			continue
 		}
